@@ -27,6 +27,8 @@ func init() {
 			{"SCO-IMPORTSET", 2, ruleScoImportSet},
 			{"SCO-RHSFIRST", 3, ruleScoRhsFirst},
 			{"SCO-SIGTYPES", 1, ruleScoSigTypes},
+			{"HND-LOCALZERO", 1, ruleHndLocalZero},
+			{"SCO-KEYS", 1, ruleScoKeys},
 		},
 	})
 }
@@ -410,6 +412,29 @@ func ruleScoOrder(c *Ctx, r *R) {
 		cs := conds(local)
 		r.check(strings.Contains(cs, "lookup.Exists(c.Locals, tok.Text)"), "local", pos, "locals are tested before package globals", "a name is resolved to a local without testing c.Locals.Exists: "+cs)
 		scoLocalTypes(c, r, sc.Clause, cs, pos)
+	}
+	// every way a plain name becomes a global access is one of: `$`, a function-local type, the
+	// package-level name under its export prefix, a builtin. A further fallback (e.g. the bare
+	// name, which is where field and method names are interned) binds forward references to
+	// unrelated slots, depending on what was compiled before
+	for _, p := range cl.Paths {
+		for _, a := range p.Atoms {
+			if a.Ins == nil || opName(a.Ins) != "GlobalGet" {
+				continue
+			}
+			av := litField(a.Ins, "A")
+			if av == nil {
+				continue
+			}
+			as := av.String()
+			known := strings.Contains(as, "compiler.expPrefix(c, tok.Text)") || strings.Contains(as, `"builtin."`) || strings.Contains(as, `"$"`) ||
+				strings.Contains(as, "localTypeIndex") || strings.Contains(as, "c.FuncName")
+			if !known && !strings.Contains(as, "lookup.Index(c.Globals") {
+				known = true // not a table lookup by name (an index computed elsewhere): judged by the other rules
+			}
+			r.check(known, "global key "+as, pos, "a name resolves to `$`, a local type, the export-prefixed package name or a builtin",
+				"compile(\"(name)\") resolves a name to the globals slot "+as+" — neither the export-prefixed package-level name nor a builtin ("+condStrings(p.St)+"): the table also interns field and method names under their bare names, so a forward reference to a helper function called like a field (`count`, `area`) binds to that empty slot and fails at call time, while a backward reference works — declaration and file order change behaviour")
+		}
 	}
 	global := find("GlobalGet", "compiler.expPrefix(c, tok.Text)")
 	if global == nil {
@@ -1046,4 +1071,106 @@ func (c *Ctx) mustSwitch() *bigSwitch {
 		return &bigSwitch{ByLabel: map[string]*switchCase{}}
 	}
 	return cs
+}
+
+// HND-LOCALZERO: `var x T` without an initialiser, in a loop body, starts from the zero value
+// on every iteration: the LOCALZERO handler stores the zero value on every path — unlike
+// GLOBALZERO, which (for live reload) leaves a variable that already has a value alone.
+func ruleHndLocalZero(c *Ctx, r *R) {
+	hm, err := newHndMachine(c)
+	if err != nil || hm == nil {
+		r.undecided("LOCALZERO", "-", "handlers could not be summarised")
+		return
+	}
+	ps, err := hm.single("codeLocalZero")
+	if err != nil || len(ps) == 0 {
+		r.undecided("LOCALZERO", "-", "no summary of the LOCALZERO handler")
+		return
+	}
+	sw, _ := c.execSwitch()
+	pos := "-"
+	if sw != nil && sw.ByLabel["codeLocalZero"] != nil {
+		pos = c.Pos(sw.ByLabel["codeLocalZero"].Clause)
+	}
+	bad := ""
+	for _, p := range ps {
+		stored := false
+		for _, s := range p.Stores {
+			if strings.HasPrefix(s, "Local(I.A) = newZero(") {
+				stored = true
+			}
+		}
+		if !stored && p.Done != "panic" {
+			bad = strings.Join(p.Conds, " && ")
+		}
+	}
+	r.check(bad == "", "LOCALZERO unconditional", pos, "every path stores newZero(type) into the slot",
+		"the LOCALZERO handler leaves the slot alone on a path ("+bad+"): `var n int` in a loop body is not reset and carries the previous iteration's value (only package variables keep their value, for reload)")
+}
+
+// SCO-KEYS: package-level names live in the globals table under their *export* prefix
+// (expPrefix: the import path). pkgPrefix (the package name) only builds display names
+// (c.FuncName). A key looked up in c.Globals that was built with pkgPrefix names another
+// slot whenever a package's import path differs from its name (import "example.com/geo/shape",
+// package shape): a method is attached to a fresh nil global instead of its type.
+func ruleScoKeys(c *Ctx, r *R) {
+	n := 0
+	for _, name := range c.FuncNames() {
+		fd := c.Func(name)
+		if fd.Body == nil {
+			continue
+		}
+		taint := map[types.Object]bool{}
+		mentions := func(e ast.Expr) bool {
+			found := false
+			ast.Inspect(e, func(m ast.Node) bool {
+				switch x := m.(type) {
+				case *ast.CallExpr:
+					if c.CalleeName(x) == "compiler.pkgPrefix" {
+						found = true
+					}
+				case *ast.Ident:
+					if taint[c.Obj(x)] {
+						found = true
+					}
+				}
+				return true
+			})
+			return found
+		}
+		for changed := true; changed; {
+			changed = false
+			ast.Inspect(fd.Body, func(m ast.Node) bool {
+				if as, ok := m.(*ast.AssignStmt); ok && len(as.Lhs) == len(as.Rhs) {
+					for i, l := range as.Lhs {
+						if id, ok := l.(*ast.Ident); ok && c.Obj(id) != nil && !taint[c.Obj(id)] && mentions(as.Rhs[i]) {
+							taint[c.Obj(id)] = true
+							changed = true
+						}
+					}
+				}
+				return true
+			})
+		}
+		ast.Inspect(fd.Body, func(m ast.Node) bool {
+			call, ok := m.(*ast.CallExpr)
+			if !ok || !strings.HasPrefix(c.CalleeName(call), "lookup.") || len(call.Args) == 0 {
+				return true
+			}
+			sel, ok := unparen(call.Fun).(*ast.SelectorExpr)
+			if !ok || !strings.HasSuffix(nosp(c.Src(sel.X)), ".Globals") {
+				return true
+			}
+			n++
+			if mentions(call.Args[0]) {
+				r.fail("globals key in "+name, c.Pos(call), name+" looks up `"+c.Src(call.Args[0])+"` in c.Globals, a key built with pkgPrefix (the package *name*): package-level names are stored under expPrefix (the import path), so for a package whose path differs from its name — import \"example.com/geo/shape\" — the method's receiver type is a fresh nil global and the load fails in SETMETHOD (or the method is lost)")
+			}
+			return true
+		})
+	}
+	if n == 0 {
+		r.undecided("globals keys", "-", "no lookup in c.Globals found")
+		return
+	}
+	r.ok("globals keys", fmt.Sprintf("%d lookups in c.Globals, none keyed by pkgPrefix", n))
 }
